@@ -920,9 +920,9 @@ func (m *MRealm) Leave(s int, announce bool) []Exp {
 			continue
 		}
 		del := m.removeCallee(reg, s)
-		out = append(out, m.metaEvent(s, "wamp.registration.on_unregister", fmt.Sprintf("[%d,%s]", sid, symR(reg.Sym)), true)...)
+		out = append(out, m.metaEvent(s, "wamp.registration.on_unregister", fmt.Sprintf("[%d,%s]", sid, symR(reg.Sym)), false)...)
 		if del {
-			out = append(out, m.metaEvent(s, "wamp.registration.on_delete", fmt.Sprintf("[%d,%s]", sid, symR(reg.Sym)), true)...)
+			out = append(out, m.metaEvent(s, "wamp.registration.on_delete", fmt.Sprintf("[%d,%s]", sid, symR(reg.Sym)), false)...)
 		}
 	}
 	// calls it was serving are answered with an error; its own calls are abandoned
@@ -956,6 +956,13 @@ func (m *MRealm) Leave(s int, announce bool) []Exp {
 				}
 				break
 			}
+		}
+	}
+	// whether the departing session still sees the announcements of its own
+	// departure is not determined
+	for i := range out {
+		if out[i].To == s && len(out[i].Alt) == 0 {
+			out[i].Alt = []string{out[i].Text, ""}
 		}
 	}
 	delete(m.Sess, s)
